@@ -680,12 +680,13 @@ def unsigned_sub(db, ctx):
             # (3) earlier value of a counter that only grows
             if why is None:
                 la, lb = peel_casts(x["l"]), deref_all(x["r"])
-                if la.get("k") == "Path" and la.get("res") == "local" and isinstance(lb, dict) and lb.get("k") == "Path" and lb.get("lid") == la.get("lid") and \
-                        peel_casts(x["r"]).get("lid") != la.get("lid"):
+                captured = isinstance(lb, dict) and lb.get("k") == "Path" and lb.get("lid") == la.get("lid") and peel_casts(x["r"]).get("lid") != la.get("lid")
+                started_at = la.get("k") == "Path" and "mut_init" in la and nf(la["mut_init"]) == b        # `let mut total = start; .. total - start`
+                if la.get("k") == "Path" and la.get("res") == "local" and (captured or started_at):
                     grows_only = all(y.get("op") == "Add" for y, _ in walk(f.hir) if y.get("k") == "AssignOp" and peel(y["l"]).get("lid") == la.get("lid")) and \
                         not any(y.get("k") == "Assign" and peel(y["l"]).get("lid") == la.get("lid") for y, _ in walk(f.hir))
                     if grows_only:
-                        why = "`%s` is an earlier value of the counter `%s`, which is only ever increased" % (render(x["r"]), render(x["l"]))
+                        why = "`%s` is an earlier (or the initial) value of the counter `%s`, which is only ever increased" % (render(x["r"]), render(x["l"]))
             if why is None:
                 for (fn_, a_, b_), reason in SUB_ALLOW.items():
                     if f.short().endswith(fn_) and a == a_ and b == b_:
@@ -693,7 +694,7 @@ def unsigned_sub(db, ctx):
             ctx.ob("%s|%s - %s" % (f.short(), a, b), why is not None,
                    "%s: unsigned `%s` — %s" % (f.short(), render(x), why or "NOT protected: when the right operand exceeds the left one the debug build panics "
                                                "('attempt to subtract with overflow') and the release build wraps"), fn=f, site=x.get("sp"))
-    ctx.floor(4)
+    ctx.floor(1)
 
 
 @rule("C06.field-source", "the compiled word-info records carry, in each slot, the attribute the loader reads from it (re-evaluation of C05.field-source: a length slot filled from the wrong attribute compiles and loads, and fails only when a split is taken)")
